@@ -137,6 +137,7 @@ type World struct {
 	t0    time.Time
 
 	errN          int64 // storage failures injected so far (selects the error shape)
+	mailRng       *Rng  // decides how long a slow mail system keeps a sending goroutine (Config.SlowMail)
 	expireOn      bool  // the expire module is set up and its middleware installed (see Config.ExpireLate)
 	restarts      int
 	appLoadedUser atomic.Int64
@@ -240,6 +241,7 @@ type seqSched struct {
 	kids    map[uint64]*kid
 	pending []*kid
 	n       int
+	drain   bool // end of the run: nobody is kept waiting any longer
 }
 
 type kid struct {
@@ -247,6 +249,7 @@ type kid struct {
 	site string
 	gate chan struct{}
 	open bool
+	held int // requests this goroutine has been kept waiting over (Config.SlowMail)
 }
 
 func (s *seqSched) yield(w *World, site string) {
@@ -269,16 +272,27 @@ func (s *seqSched) yield(w *World, site string) {
 }
 
 func (s *seqSched) afterRequest(w *World) {
+	var hold []*kid
 	for {
 		synctest.Wait()
 		s.mu.Lock()
 		if len(s.pending) == 0 {
+			s.pending = hold
 			s.mu.Unlock()
 			return
 		}
 		sort.SliceStable(s.pending, func(i, j int) bool { return s.pending[i].n < s.pending[j].n })
 		k := s.pending[0]
 		s.pending = s.pending[1:]
+		if w.Cfg.SlowMail && !s.drain && k.held < 3 && w.mailRng.Chance(1, 2) {
+			// a slow mail system: the sending goroutine is still on its way
+			// while later requests are served (and may overtake it)
+			k.held++
+			hold = append(hold, k)
+			s.mu.Unlock()
+			w.Stats.Reach["mail_goroutine_held_over_request"]++
+			continue
+		}
 		k.open = true
 		s.mu.Unlock()
 		w.Stats.Reach["mail_goroutine_released"]++
@@ -485,6 +499,7 @@ func NewWorld(t *testing.T, cfg Config, seed uint64, concurrent bool) *World {
 	}
 	w.rand = &seededReader{rng: NewRng(seed ^ 0xa5a5a5a5deadbeef)}
 	w.rand.onRead = func() { w.seam("rand.read", "") }
+	w.mailRng = NewRng(seed ^ 0x51074a11)
 	w.origRand = rand.Reader
 	rand.Reader = w.rand
 	w.DB = newDB(w)
